@@ -11,6 +11,7 @@
 //!   line ver infodefs fmtdefs ns rec ftab valid   a whole record: written line, eager and lazy re-read, spans
 //!   ltxt ver infodefs fmtdefs ns hextext ftab     arbitrary line text through both readers (see c09_line.rs)
 //!   multi ver infodefs fmtdefs ns rec^rec^.. ftab  records of one file read into reused buffers vs the single-line model
+//!   lzb  ver infodefs fmtdefs ns hextext ftab      arbitrary bytes through read_record + every accessor vs NV.Vcf.LazyRec
 //!   hw spec valid / hp hexlines                   headers against NV.Vcf.Header (see c09_hdr.rs)
 //! Implementation-only oracles (obs "-"):
 //!   rec  seed ver feat                generated header + record: write/read equality, lazy accessors
@@ -525,6 +526,7 @@ fn run(c: &Case) -> Obs {
         "line" => line::run_line(c),
         "ltxt" => line::run_ltxt(c),
         "multi" => line::run_multi(c),
+        "lzb" => line::run_lzb(c),
         "rec" => rec::run_rec(c),
         "hdr" => rec::run_hdr(c),
         "bad" => rec::run_bad(c),
@@ -543,6 +545,8 @@ fn generate(rng: &mut Rng, tier: &str, w: &mut CaseWriter) {
         line::gen_line(rng, rec::VERS[i % 4], mode, w);
     }
     line::gen_ltxt(rng, w, if thorough { 3000 } else { 250 });
+    // the lazy Record's buffer and bounds against NV.Vcf.LazyRec (arbitrary bytes, whole files)
+    line::gen_lzb(rng, w, if thorough { 6000 } else { 500 });
     // several records through one reused RecordBuf / the record_bufs() iterator / one reused lazy Record
     for i in 0..(if thorough { 3000 } else { 300 }) {
         line::gen_multi(rng, rec::VERS[i % 4], w);
